@@ -433,11 +433,21 @@ class fault_numpy:
             if hasattr(np, n):
                 self.orig[n] = getattr(np, n)
 
-                def bad(*a, _n=n, **kw):
-                    self.fired += 1
-                    raise InjectedFault(f"numpy.{_n} failed (injected)")
+                outer = self
 
-                setattr(np, n, bad)
+                class Bad:  # any use fires - numpy itself reaches ufuncs through the module attribute (np.prod -> np.multiply.reduce)
+                    def __init__(self, name):
+                        object.__setattr__(self, "_n", name)
+
+                    def __call__(self, *a, **kw):
+                        outer.fired += 1
+                        raise InjectedFault(f"numpy.{self._n} failed (injected)")
+
+                    def __getattr__(self, attr):
+                        outer.fired += 1
+                        raise InjectedFault(f"numpy.{object.__getattribute__(self, '_n')}.{attr} failed (injected)")
+
+                setattr(np, n, Bad(n))
         return self
 
     def __exit__(self, *a):
